@@ -1612,6 +1612,9 @@ class DistTriangular(DistContinuous):
 
     def probability_density(self, x: float) -> float:
         """Returns the probability density value for value x."""
+        if x == self._mode:
+            # also covers a mode at one of the bounds (no division by zero)
+            return 2.0 / (self._hi - self._lo)
         if x >= self._lo and x <= self._mode:
             return (2.0 * (x - self._lo) / ((self._hi - self._lo) 
                     * (self._mode - self._lo)))
